@@ -66,7 +66,9 @@ def search_and_judge(ctx, st, case, pat, built, atol, hints=(None, None, None), 
     if ref["truncated"]:
         st.count("reference_truncated_skipped")
         return None
-    patoms = patterns.to_atoms(pat)
+    patoms = patterns.to_atoms(pat, unused_type=(case["s"] % 4 == 1))
+    if case["s"] % 4 == 1:
+        st.count("searches_with_a_pattern_whose_type_table_has_an_unused_entry")
     events.seed_all(case["s"])
     events.SCHEDULE["choice"] = case.get("schedule", "real")
     if case.get("schedule") in ("first", "rr"):
